@@ -306,7 +306,8 @@ def _random_id(rng, max_len=300):
                   'same_across_restarts', 'distinct_long_shared_prefix', 'distinct_short'],
          universe='ids: all strings of length 1..3 over {a,Z,0,_,.,/,<,>,-} (819) + seeded random ids of length 1..300 over '
                   '[A-Za-z0-9_./<>-] (8000 quick / 60000 thorough, lengths clustered around 56/63/64); 6 prefixes (3 usual, 54, 95, 188 chars) '
-                  'x v1 in {T,F}; 40 groups of 200 long ids sharing their first 56..250 characters')
+                  'x v1 in {T,F}; the same through make_keys(id, body=) for a plain object, a ReplicaSet owned by a Deployment and a ReplicaSet with '
+                  'another owner (ids of 50..300 chars incl. every length 50..69); 40 groups of 200 long ids sharing their first 56..250 characters')
 def E4b(b):
     """
     The part of E4 that needs the real blake2b/base64 and the real `str.replace`, end to end on make_keys:
@@ -315,7 +316,9 @@ def E4b(b):
       charset        every generated name is over [A-Za-z0-9_.-];  name_length: v2 name part <= 63 chars
       valid_name     every key of make_keys is a valid Kubernetes qualified name (grammar oracle in this file)
                      [known: F-C16-1 ids starting/ending with a non-alphanumeric; F-C16-3 v1 with prefixes of 55+ chars]
-      make_keys      no duplicates; the v2 key first; the v1 key present iff v1 and different from the v2 key
+      make_keys      no duplicates; the v2 key first; the v1 key present iff v1 and different from the v2 key; with body=: the same
+                     keys for ordinary objects, other (marked) keys for a ReplicaSet owned by a Deployment -- all clauses
+                     (charset, length, validity, determinism) hold for the keys formed with a body as well
       deterministic  two calls (two storage instances) agree;  pure_ast: the key-forming methods read nothing but their
                      arguments, self.prefix/self.v1 and hashlib/base64 (AST scan: no time, randomness, environment, hash());
                      same_across_restarts: a fresh interpreter with another PYTHONHASHSEED produces the same keys
@@ -386,6 +389,39 @@ def E4b(b):
                     b.check('distinct_short', False, lambda: dict(prefix=prefix, key=key, ids=group[:6]), excuse=F2 if same_safe else None)
                 else:
                     b.check('distinct_short', True)
+    # ---- make_keys(id, body=...): the names formed for a concrete object, incl. a ReplicaSet owned by a Deployment (marked keys)
+    from kopf._cogs.structs import bodies
+    plain_body = bodies.Body({'kind': 'KopfExample', 'metadata': {'name': 'obj'}})
+    rs_body = bodies.Body({'kind': 'ReplicaSet', 'metadata': {'name': 'rs', 'ownerReferences': [
+        {'apiVersion': 'apps/v1', 'kind': 'Deployment', 'name': 'd', 'uid': 'u', 'controller': True}]}})
+    rs_other_owner = bodies.Body({'kind': 'ReplicaSet', 'metadata': {'name': 'rs', 'ownerReferences': [{'kind': 'Rollout', 'name': 'r'}]}})
+    body_ids = small[::7] + [i for i in rnd if len(i) >= 50][:600] + ['x' * n for n in range(50, 70)] + ['a' * 57 + '/sub', 'fn/' + 'field.' * 12 + 'x']
+    for prefix in E4B_PREFIXES[:4]:
+        for v1 in (True, False):
+            st = _storage(prefix, v1)
+            for hid in body_ids:
+                unmarked = list(st.make_keys(hid))
+                for bname, bd in (('plain', plain_body), ('replicaset-of-deployment', rs_body), ('replicaset-of-other', rs_other_owner)):
+                    keys = list(st.make_keys(hid, body=bd))
+                    b.case(key=('body', prefix, v1, hid, bname))
+                    w = lambda: dict(prefix=prefix, v1=v1, id=hid, body=bname, keys=keys)
+                    names = [k[len(prefix) + 1:] if k.startswith(prefix + '/') else None for k in keys]
+                    b.check('charset', all(nm is not None and all(c in NAME_CHARS for c in nm) for nm in names), w)
+                    b.check('name_length', names[0] is not None and 1 <= len(names[0]) <= 63, w)
+                    b.check('make_keys', len(set(keys)) == len(keys) and 1 <= len(keys) <= (2 if v1 else 1)
+                            and (keys == unmarked if bname != 'replicaset-of-deployment' else not set(keys) & set(unmarked)), w)
+                    b.check('deterministic', keys == list(st.make_keys(hid, body=bd)), w)
+                    for n, k in enumerate(keys):
+                        ok = is_qualified_name(k)
+                        excuse = None
+                        if not ok:
+                            nm = k[len(prefix) + 1:]
+                            ends_only = k.startswith(prefix + '/') and 1 <= len(nm) <= 63 and all(c in NAME_CHARS for c in nm)
+                            if n > 0 and len(prefix) >= 55:
+                                excuse = F3
+                            elif ends_only and ((nm[0] not in ALNUM and hid[0] not in ALNUM) or (nm[-1] not in ALNUM and hid[-1] not in ALNUM)):
+                                excuse = F1
+                        b.check('valid_name', ok, lambda: dict(prefix=prefix, v1=v1, id=hid, body=bname, key=k), excuse=excuse)
     # ---- long ids sharing a prefix
     for g in range(40):
         shared = ''.join(b.rng.choice(ALNUM + '_./') for _ in range(b.rng.choice([56, 57, 63, 64, 100, 250])))
@@ -445,7 +481,7 @@ def _records(rng, n):
     return out
 
 
-E5_IDS = ('fn', 'fn/spec.x', 'outer/inner_sub', 'Class.method', 'x' * 63, 'x' * 64, 'y' * 70 + '/sub', 'z' * 300, 'fn_<locals>_inner')
+E5_IDS = ('fn', 'fn/spec.x', 'outer/inner_sub', 'Class.method', 'x' * 57, 'x' * 58, 'x' * 63, 'x' * 64, 'y' * 70 + '/sub', 'z' * 300, 'fn_<locals>_inner')
 E5_COLLIDING = (('fn/spec.x', 'fn.spec.x'), ('a<b', 'a_b'), ('q' * 80 + '/t', 'q' * 80 + '.t'))     # equal after make_safe_key (F-C16-2)
 
 
@@ -506,17 +542,19 @@ def _strip_own(body, keys, status, hid, markers):
                         'kopf._cogs.configs.diffbase.AnnotationsDiffBaseStorage', 'kopf._cogs.configs.diffbase.StatusDiffBaseStorage',
                         'kopf._cogs.configs.diffbase.MultiDiffBaseStorage', 'kopf._cogs.configs.conventions.CollisionEvadingConvention.mark_key'],
          props=['C16', 'C02'],
-         clauses=['round_trip', 'store_touches_only_own', 'purge_complete', 'purge_touches_only_own', 'purge_of_nothing_is_noop',
+         clauses=['round_trip', 'written_names_valid', 'store_touches_only_own', 'purge_complete', 'purge_touches_only_own', 'purge_of_nothing_is_noop',
                   'store_then_purge_in_one_patch', 'isolation_other_ids', 'isolation_other_operator', 'either_version_read',
                   'touch', 'diffbase_round_trip', 'replicaset_marking'],
          universe='progress storages: Annotations/Smart/Multi x 3 prefixes x v1 {T,F} + Status (19); diff-base storages: Annotations/Multi x 3 prefixes '
                   'x v1 + Status (13); 4 bodies (bare, user data + foreign status records, shared with another Kopf operator, ReplicaSet owned by a '
-                  'Deployment); 9 ids (plain, field-suffixed, sub-handler, 63/64/75/300 chars, <locals>) + 3 pairs equal after safe-key '
+                  'Deployment); 11 ids (plain, field-suffixed, sub-handler, 57/58/63/64/75/300 chars, <locals>) + 3 pairs equal after safe-key '
                   'replacement; records: 12 (quick) / 200 (thorough) seeded combinations of all 9 fields incl. nulls, unicode, 1200-char messages')
 def E5(b):
     """
     Property C16, first sentence, for each storage class x configuration (patches applied with the independent RFC 7386 merge):
       round_trip                fetch(id, merge(body, patch_of(store(id, record)))) == record modulo None-valued fields
+      written_names_valid       every annotation name in that patch is a valid Kubernetes qualified name (name part <= 63 chars), also for
+                                long ids on a ReplicaSet owned by a Deployment (marked keys)
       store_touches_only_own    that patch changes nothing but the record's own locations and the operator's branding marker
       purge_complete            after merge(.., patch_of(purge(id))) fetch(id) is None and no location of the record is left
       purge_touches_only_own    ... and nothing else changed;  purge_of_nothing_is_noop: purging an absent record writes nothing
@@ -567,6 +605,10 @@ def E5(b):
                     b.check('round_trip', got is not None and _no_nones(got) == _no_nones(record), lambda: dict(ctx, fetched=got, patch=wire))
                     b.check('store_touches_only_own', _strip_own(stored, keys, in_status, hid, markers) == _strip_own(body, keys, in_status, hid, markers),
                             lambda: dict(ctx, patch=wire))
+                    if ri == 0:
+                        written = list((wire.get('metadata') or {}).get('annotations') or {})
+                        bad = [k for k in written if not is_qualified_name(k)]
+                        b.check('written_names_valid', not bad, lambda: dict(ctx, invalid=bad, patch=None))
                     if ri > 2:
                         continue
                     # -- purge
